@@ -225,6 +225,6 @@ MUTANTS = [
     Mutant('statement-no-wrap', FG, "        return self.format_line(keyword, str(text).lstrip())", "        return self.format_line(keyword, str(text).lstrip(), no_wrap=True)",
            expect=('R4', 'visit_GenericStmt:no_wrap')),
     Mutant('width-constant', PP, "            items, sep=sep, width=self.style.linewidth,", "            items, sep=sep, width=200,", expect=('R4', 'join_items:width')),
-    Mutant('repair-quoted-pattern', ST, "    _pattern_quoted_string = re.compile(r'(?:\\'.*?\\')|(?:\".*?\")')",
-           "    _pattern_quoted_string = re.compile(r'(?:\\'(?:[^\\']|\\'\\')*\\')|(?:\"(?:[^\"]|\"\")*\")')", expect=None),
+    Mutant('quoted-pattern-lazy-dot', ST, "    _pattern_quoted_string = re.compile(r'(?:\\'(?:[^\\']|\\'\\')*\\')|(?:\"(?:[^\"]|\"\")*\")')",
+           "    _pattern_quoted_string = re.compile(r'(?:\\'.*?\\')|(?:\".*?\")')", expect=('R3', '_pattern_quoted_string')),
 ]
